@@ -606,37 +606,92 @@ fn main() {
     if mode == "openstress" {
         // Failed opens must not consume anything: with a small descriptor limit, open every file of
         // the list many more times than the limit allows, then a valid segment must still open.
+        // `--repeat N` (default 100) opens per file; beyond the per-process limit on mappings
+        // (vm.max_map_count, 65530 by default) this also shows mappings left behind.
         let list = std::fs::read_to_string(arg_str(&args, "list", "")).expect("--list");
         let valid = arg_str(&args, "valid", "");
+        let repeat = arg_u64(&args, "repeat", 100);
         let lim = libc::rlimit { rlim_cur: 64, rlim_max: 4096 };
         unsafe { libc::setrlimit(libc::RLIMIT_NOFILE, &lim) };
         let fds = || std::fs::read_dir("/proc/self/fd").map(|d| d.count()).unwrap_or(0);
+        let maps = || std::fs::read_to_string("/proc/self/maps").map(|m| m.lines().count()).unwrap_or(0);
         let base = fds();
+        let outcome = |r: Result<clock_bound_shm::ShmReader, clock_bound_shm::ShmError>| match r {
+            Ok(_) => "OPENED".to_string(),
+            Err(clock_bound_shm::ShmError::SyscallError(errno, detail)) => format!("ERR Syscall {} {}", errno.0, detail.to_str().unwrap_or("?")),
+            Err(e) => format!("ERR {:?}", e),
+        };
         for path in list.lines().filter(|l| !l.is_empty()) {
             let cpath = std::ffi::CString::new(path).unwrap();
             let mut first = String::new();
             let mut last = String::new();
-            for k in 0..100 {
-                let r = match clock_bound_shm::ShmReader::new(&cpath) {
-                    Ok(_) => "OPENED".to_string(),
-                    Err(clock_bound_shm::ShmError::SyscallError(errno, detail)) => format!("ERR Syscall {} {}", errno.0, detail.to_str().unwrap_or("?")),
-                    Err(e) => format!("ERR {:?}", e),
-                };
+            let mut changed_at = 0;
+            let maps0 = maps();
+            for k in 0..repeat {
+                let r = outcome(clock_bound_shm::ShmReader::new(&cpath));
                 if k == 0 {
                     first = r.clone();
+                } else if r != first && changed_at == 0 {
+                    changed_at = k;
+                    last = r;
+                    break;
                 }
                 last = r;
             }
             let after = fds();
+            let maps1 = maps();
             let v = match clock_bound_shm::ShmReader::new(&std::ffi::CString::new(valid.as_str()).unwrap()) {
-                Ok(_) => "OPENED".to_string(),
+                Ok(mut r) => match r.snapshot() {
+                    Ok(_) => "OPENED".to_string(),
+                    Err(e) => format!("ERR snapshot {:?}", e),
+                },
                 Err(e) => format!("ERR {:?}", e),
             };
-            println!("{} | first={} | last={} | fds={} (base {}) | valid={}", path, first.replace(' ', "_"), last.replace(' ', "_"), after, base, v.replace(' ', "_"));
-            if after > base + 8 {
-                // leaked: keep going would only repeat EMFILE; report and stop
+            println!("{} | first={} | last={} | fds={} (base {}) maps={} (before {}) changed_at={} | valid={}", path, first.replace(' ', "_"), last.replace(' ', "_"), after, base, maps1, maps0, changed_at, v.replace(' ', "_"));
+            if after > base + 8 || maps1 > maps0 + 64 {
+                // leaked: keep going would only repeat the failure; report and stop
                 break;
             }
+        }
+        // Many contexts at once, as an unprivileged process would hold them (one per thread): no
+        // CAP_IPC_LOCK, the usual 64 KiB of lockable memory.
+        let many = arg_u64(&args, "simultaneous", 0);
+        if many > 0 {
+            #[repr(C)]
+            struct CapHdr { version: u32, pid: i32 }
+            #[repr(C)]
+            #[derive(Clone, Copy)]
+            struct CapData { effective: u32, permitted: u32, inheritable: u32 }
+            let mut hdr = CapHdr { version: 0x2008_0522, pid: 0 };
+            let mut data = [CapData { effective: 0, permitted: 0, inheritable: 0 }; 2];
+            let mut dropped = false;
+            unsafe {
+                if libc::syscall(libc::SYS_capget, &mut hdr as *mut CapHdr, data.as_mut_ptr()) == 0 {
+                    data[0].effective &= !(1u32 << 14);
+                    dropped = libc::syscall(libc::SYS_capset, &mut hdr as *mut CapHdr, data.as_ptr()) == 0;
+                }
+                let l = libc::rlimit { rlim_cur: 65536, rlim_max: 65536 };
+                libc::setrlimit(libc::RLIMIT_MEMLOCK, &l);
+            }
+            let cvalid = std::ffi::CString::new(valid.as_str()).unwrap();
+            let mut held = Vec::new();
+            let mut first_err = String::from("-");
+            for k in 0..many {
+                match clock_bound_shm::ShmReader::new(&cvalid) {
+                    Ok(mut r) => match r.snapshot() {
+                        Ok(_) => held.push(r),
+                        Err(e) => {
+                            first_err = format!("context {} snapshot {:?}", k + 1, e);
+                            break;
+                        }
+                    },
+                    Err(e) => {
+                        first_err = format!("context {} open {:?}", k + 1, e);
+                        break;
+                    }
+                }
+            }
+            println!("SIMULTANEOUS asked={} held={} unprivileged={} first_error={}", many, held.len(), dropped as i32, first_err.replace(' ', "_"));
         }
         return;
     }
